@@ -265,6 +265,13 @@ Content-Length; distinct by case index";
         if ce_gzip {
             headers.push(("Content-Encoding".into(), b"gzip".to_vec()));
         }
+        // a Connection field says nothing about how the body is framed (a variant is picked from the other coordinates, so the
+        // exhaustive tier meets every variant with every framing configuration)
+        let conn = (case.method as usize * 7 + case.status as usize * 3 + case.cl as usize + case.te as usize * 5 + case.extra as usize + case.plen as usize + case.seg as usize * 2) % 5;
+        if let Some(v) = [None, Some("close"), Some("keep-alive"), Some("Keep-Alive"), Some("keep-alive, Upgrade")][conn] {
+            headers.push(("Connection".into(), v.as_bytes().to_vec()));
+            ctx.label_if(conn >= 2, "connection:keep-alive-announced");
+        }
         let mut structural = vec![];
         let mut wire = build_head("HTTP/1.1", status, Some("Reason"), &headers, &mut structural);
 
@@ -312,10 +319,12 @@ Content-Length; distinct by case index";
                         debug_assert!(*n as u128 > (framed_body.len() + extra.len()) as u128);
                         let mut all = framed_body.clone();
                         all.extend_from_slice(extra);
-                        accept.push(Expect::Truncated(all));
                         if coded {
-                            // a decoder stops at the end of the compressed stream and cannot see the missing octets
-                            accept.push(Expect::Body(payload.clone()));
+                            // the coded stream may be whole, the frame is not: what can be decoded is delivered, then the missing
+                            // octets are an error (before the D15 repair the decoder's end of stream was taken for the end of the body)
+                            accept.push(Expect::Truncated(payload.clone()));
+                        } else {
+                            accept.push(Expect::Truncated(all));
                         }
                         ctx.label("length-exceeds-stream");
                     }
